@@ -1,4 +1,4 @@
-import MdIt.Lemmas.InlineHWindow
+import MdIt.Props.InlineHWindow
 /-
   Audit of `MdIt/Lemmas/InlineHWindow.lean`: window-shrink independence of the raw-HTML tag matcher.
 -/
